@@ -29,6 +29,9 @@ Counter p_range_overflow("probe.range_does_not_fit");
 Counter p_moved_from_reuse("probe.moved_from_container_reassigned");
 Counter p_copy_then_mutate("probe.mutation_with_live_copy");
 Counter p_cap0("probe.capacity_zero_container");
+Counter p_range_overwrite("probe.range_insert_before_end");
+Counter p_emplace_alias("probe.emplace_argument_aliases_own_element");
+Counter p_moved_from_walk("probe.moved_from_container_observed");
 Counter p_fault_strong("probe.fault_in_single_element_op");
 Counter p_fault_basic("probe.fault_in_multi_element_op");
 Counter p_fault_ctor("probe.fault_in_constructor");
@@ -46,8 +49,19 @@ enum Origin
 constexpr uint32_t ALIVE = 0xA11CE5ED, DEAD = 0xDEADDEAD;
 constexpr int HUSK = -2;
 
+enum SiteTag
+{
+    ST_DEFAULT_CTOR = 1,
+    ST_VALUE_CTOR,
+    ST_COPY_CTOR,
+    ST_MOVE_CTOR,
+    ST_COPY_ASSIGN,
+    ST_MOVE_ASSIGN
+};
+
 struct Registry
 {
+    int fired_site = 0; // which element operation the injected throw came from
     std::unordered_map<const void*, uint32_t> live;
     uint32_t next_serial = 1;
     bool has_pending = false;
@@ -60,6 +74,7 @@ struct Registry
         has_pending = false;
         pending = Violation();
         ops = 0;
+        fired_site = 0;
     }
     void flag(const char* cls, const std::string& detail)
     {
@@ -71,6 +86,21 @@ struct Registry
     }
 };
 Registry g_reg;
+
+inline void tsite(int tag)
+{
+    bool before = fctl().fired;
+    try
+    {
+        throw_site();
+    }
+    catch (...)
+    {
+        if (!before)
+            g_reg.fired_site = tag;
+        throw;
+    }
+}
 
 struct ElemCore
 {
@@ -129,34 +159,34 @@ struct Tracked : ElemCore
 {
     Tracked()
     {
-        throw_site();
+        tsite(ST_DEFAULT_CTOR);
         born(-1, O_DEFAULT);
     }
     explicit Tracked(int v)
     {
-        throw_site();
+        tsite(ST_VALUE_CTOR);
         born(v, O_CALLER);
     }
     Tracked(const Tracked& o)
     {
-        throw_site();
+        tsite(ST_COPY_CTOR);
         born(o.id, o.origin);
     }
     Tracked(Tracked&& o)
     {
-        throw_site();
+        tsite(ST_MOVE_CTOR);
         born(-1, O_DEFAULT);
         take(o);
     }
     Tracked& operator=(const Tracked& o)
     {
-        throw_site();
+        tsite(ST_COPY_ASSIGN);
         copy(o);
         return *this;
     }
     Tracked& operator=(Tracked&& o)
     {
-        throw_site();
+        tsite(ST_MOVE_ASSIGN);
         if (this != &o)
             take(o);
         return *this;
@@ -173,25 +203,25 @@ struct MoveOnly : ElemCore
 {
     MoveOnly()
     {
-        throw_site();
+        tsite(ST_DEFAULT_CTOR);
         born(-1, O_DEFAULT);
     }
     explicit MoveOnly(int v)
     {
-        throw_site();
+        tsite(ST_VALUE_CTOR);
         born(v, O_CALLER);
     }
     MoveOnly(const MoveOnly&) = delete;
     MoveOnly& operator=(const MoveOnly&) = delete;
     MoveOnly(MoveOnly&& o)
     {
-        throw_site();
+        tsite(ST_MOVE_CTOR);
         born(-1, O_DEFAULT);
         take(o);
     }
     MoveOnly& operator=(MoveOnly&& o)
     {
-        throw_site();
+        tsite(ST_MOVE_ASSIGN);
         if (this != &o)
             take(o);
         return *this;
@@ -208,22 +238,22 @@ struct CopyOnly : ElemCore
 {
     CopyOnly()
     {
-        throw_site();
+        tsite(ST_DEFAULT_CTOR);
         born(-1, O_DEFAULT);
     }
     explicit CopyOnly(int v)
     {
-        throw_site();
+        tsite(ST_VALUE_CTOR);
         born(v, O_CALLER);
     }
     CopyOnly(const CopyOnly& o)
     {
-        throw_site();
+        tsite(ST_COPY_CTOR);
         born(o.id, o.origin);
     }
     CopyOnly& operator=(const CopyOnly& o)
     {
-        throw_site();
+        tsite(ST_COPY_ASSIGN);
         copy(o);
         return *this;
     }
@@ -286,7 +316,7 @@ const std::vector<OpSchema>& fv_schema()
         { "push_back", { "obj", "val" } },
         { "push_back_range", { "obj", "n", "v0" } },
         { "insert_range", { "obj", "pos", "n", "v0" } },
-        { "emplace_pos", { "obj", "pos", "val" } },
+        { "emplace_pos", { "obj", "pos", "val", "alias" } },
         { "erase", { "obj", "pos" } },
         { "pop_back", { "obj" } },
         { "at", { "obj", "idx" } },
@@ -352,7 +382,7 @@ std::string argclass(const Op& op, size_t size, size_t cap)
     case K_PUSH_BACK_RANGE:
         return size + static_cast<size_t>(op.a[1]) > cap ? "overflow" : "fits";
     case K_INSERT_RANGE:
-        return std::string(static_cast<size_t>(op.a[1]) > size ? "pos>size" : "pos==size") +
+        return std::string(static_cast<size_t>(op.a[1]) > size ? "pos>size" : static_cast<size_t>(op.a[1]) == size ? "pos==size" : "pos<size") +
                (static_cast<size_t>(op.a[1]) + static_cast<size_t>(op.a[2]) > cap ? ",overflow" : ",fits");
     case K_CONSTRUCT_RANGE:
         return static_cast<size_t>(op.a[2]) > static_cast<size_t>(op.a[1]) ? "overflow" : "fits";
@@ -566,6 +596,7 @@ struct Exec
         f.armed_idx = op.fidx;
         f.count[FK_ALLOC] = f.count[FK_THROW] = 0;
         f.fired = false;
+        g_reg.fired_site = 0;
         Res res = RS_OK;
         bool must_raise = false;
         bool executed = true;
@@ -880,11 +911,9 @@ struct Exec
             int n = static_cast<int>(op.a[ins ? 2 : 1] % (MAXCAP + 2));
             int v0 = static_cast<int>(op.a[ins ? 3 : 2]);
             size_t pos = ins ? static_cast<size_t>(op.a[1] % (MAXCAP + 1)) : sl.m.seq.size();
-            if (ins && pos < sl.m.seq.size())
-            {
-                executed = false; // overwriting range insert: semantics not fixed by the property
-                break;
-            }
+            bool overwriting = ins && pos < sl.m.seq.size();
+            if (overwriting)
+                p_range_overwrite++;
             if (pos > sl.m.cap)
                 pos = sl.m.cap;
             bool bad_pos = pos > sl.m.seq.size();
@@ -910,7 +939,16 @@ struct Exec
                 else
                     res = guarded([&] { sl.p->push_back(b, e); });
             }
-            if (!must_raise)
+            if (overwriting)
+            {
+                // range insert before end(): whether it overwrites or shifts is not fixed by the
+                // property; only the safety clauses are demanded (size<=capacity, no unfilled slot
+                // visible, capacity unchanged), raising is permitted when pos+n does not fit
+                must_raise = false;
+                may_raise = true;
+                resync = true;
+            }
+            else if (!must_raise)
                 for (int k = 0; k < n; k++)
                     expect.seq.push_back(val_of(v0, k));
             else if (!bad_pos)
@@ -936,11 +974,27 @@ struct Exec
             must_raise = sl.m.seq.size() >= sl.m.cap;
             if (pos < sl.m.seq.size() && !must_raise)
                 p_emplace_mid++;
-            res = guarded([&] { sl.p->emplace(sl.p->begin() + pos, v); });
+            bool aliased = false;
+            if constexpr (T::copyable)
+            {
+                if (op.a[3] > 0 && !sl.m.seq.empty())
+                {
+                    // the argument refers to an element of the container itself
+                    size_t src = static_cast<size_t>(op.a[3] - 1) % sl.m.seq.size();
+                    v = sl.m.seq[src];
+                    aliased = true;
+                    p_emplace_alias++;
+                    res = guarded([&] { sl.p->emplace(sl.p->begin() + pos, (*sl.p)[src]); });
+                }
+            }
+            if (!aliased)
+                res = guarded([&] { sl.p->emplace(sl.p->begin() + pos, v); });
             if (!must_raise)
                 expect.seq.insert(expect.seq.begin() + static_cast<long>(pos), v);
-            if (res != RS_OK && f.fired)
-                resync = true; // moves several elements
+            // constructing the new element failed: nothing may have happened yet (what std::vector
+            // guarantees too); a throwing move/assignment of existing elements: basic guarantee
+            if (res != RS_OK && f.fired && g_reg.fired_site != ST_VALUE_CTOR && !(aliased && g_reg.fired_site == ST_COPY_CTOR))
+                resync = true;
             break;
         }
         case K_ERASE:
@@ -1074,7 +1128,9 @@ struct Exec
                 NoFault nf;
                 seen.reserve(16);
             }
-            int how = static_cast<int>(op.a[1] % 4);
+            int how = static_cast<int>(op.a[1] % 5);
+            if (how == 4 && !T::copyable)
+                how = 3;
             if (!sl.m.seq.empty())
                 p_riter++;
             // bounded walk: a reverse range that never reaches its end is reported, not followed
@@ -1107,12 +1163,20 @@ struct Exec
                 case 2:
                     visit(c.rbegin(), c.rend());
                     break;
-                default:
+                case 3:
                 {
                     auto r = nitro::lang::reverse(*sl.p);
                     visit(r.begin(), r.end());
                     break;
                 }
+                default:
+                    if constexpr (T::copyable)
+                    {
+                        // reverse over a temporary: the owning proxy iterates crbegin()..crend()
+                        auto r = nitro::lang::reverse(FV(*sl.p));
+                        visit(r.begin(), r.end());
+                    }
+                    break;
                 }
             });
             if (res == RS_OK)
@@ -1189,11 +1253,26 @@ struct Exec
                 executed = false;
                 break;
             }
+            p_moved_from_walk++;
+            bool bad_elem = false;
             res = guarded([&] {
-                (void)sl.p->size();
+                NoFault nf;
+                // whatever a moved-from container claims to hold must be readable
+                size_t n = sl.p->size();
                 (void)sl.p->capacity();
                 (void)sl.p->empty();
+                for (size_t i = 0; i < n && i < sl.p->capacity(); i++)
+                {
+                    const T& e = sl.p->at(i);
+                    if (!e.alive() || e.origin == O_DEFAULT)
+                        bad_elem = true;
+                }
             });
+            if (bad_elem)
+                fail("C06/unfilled-slot-visible", op, opi, presize, precap,
+                     "moved-from container exposes a slot the caller never filled");
+            if (res == RS_RAISED)
+                res = RS_OK; // raising on access to a moved-from container is acceptable
             break;
         }
         default:
@@ -1269,7 +1348,7 @@ struct Exec
         // ---- model update
         if (res == RS_OK)
         {
-            if (!must_raise)
+            if (!must_raise && !(resync && op.kind == K_INSERT_RANGE))
                 sl.m = expect;
         }
         else if (is_ctor)
@@ -1505,7 +1584,8 @@ public:
                     t.size = t.cap; // whatever prefix went in; executor resynchronises
                 break;
             case K_INSERT_RANGE:
-                op.a[1] = rng.chance(3, 4) ? static_cast<int64_t>(t.size) :
+                op.a[1] = rng.chance(3, 5) ? static_cast<int64_t>(t.size) :
+                          (rng.chance(1, 2) && t.size > 0) ? static_cast<int64_t>(rng.below(t.size)) :
                                              std::min<int64_t>(static_cast<int64_t>(t.size + 1), MAXCAP);
                 op.a[2] = static_cast<int64_t>(rng.below(4));
                 op.a[3] = static_cast<int64_t>(rng.below(NVAL));
@@ -1516,10 +1596,13 @@ public:
                     else
                         t.size = t.cap;
                 }
+                else if (static_cast<size_t>(op.a[1]) < t.size)
+                    t.size = std::min(t.cap, std::max(t.size, static_cast<size_t>(op.a[1] + op.a[2])));
                 break;
             case K_EMPLACE_POS:
                 op.a[1] = static_cast<int64_t>(rng.below(t.size + 1));
                 op.a[2] = static_cast<int64_t>(rng.below(NVAL));
+                op.a[3] = rng.chance(1, 4) ? static_cast<int64_t>(1 + rng.below(MAXCAP)) : 0;
                 if (t.size < t.cap)
                     t.size++;
                 break;
@@ -1538,7 +1621,7 @@ public:
                 op.a[1] = pick_index(t.size, t.cap);
                 break;
             case K_RITERATE:
-                op.a[1] = static_cast<int64_t>(rng.below(4));
+                op.a[1] = static_cast<int64_t>(rng.below(5));
                 break;
             case K_WRITE:
                 op.a[1] = static_cast<int64_t>(rng.below(MAXCAP));
